@@ -107,6 +107,9 @@ def width_product(R, B, rng):
                     R.check([g.hash for g in got] == [x.hash for x in roots], f'roots-differ-{k}-roots', f'{k} roots: returned roots differ from the root list (count, order or cells)', {'boc': b, 'roots': k})
 
 
+_ENTRY = [0]
+
+
 def must_reject(R, B, data, key, what, W):
     st, got = mon.call(B.Cell.from_boc, data)
     R.counters['oracle_evaluations'] += 1
@@ -115,6 +118,19 @@ def must_reject(R, B, data, key, what, W):
         R.violation(f'accepted-{key}', f'{what} was accepted: returned {len(got)} cell(s)', dict(W, corrupted=data if len(data) < 2000 else None))
         return False
     R.exc(got)
+    # the other ways into the same parser (one of them per call, in rotation): the slice and builder entry points, and Boc(data).deserialize(cls) with each of
+    # the classes the library itself passes for cls - the rejection must not depend on the class of object being built
+    from pytoniq_core.boc.deserialize import Boc, NullCell
+    _ENTRY[0] += 1
+    ename, entry = [('Slice.one_from_boc', lambda: B.Slice.one_from_boc(data)), ('Builder.one_from_boc', lambda: B.Builder.one_from_boc(data)),
+                    ('Boc.deserialize(Slice)', lambda: Boc(data).deserialize(B.Slice)), ('Boc.deserialize(NullCell)', lambda: Boc(data).deserialize(NullCell)),
+                    ('Boc.deserialize(Builder)', lambda: Boc(data).deserialize(B.Builder)), ('Boc.deserialize()', lambda: Boc(data).deserialize())][_ENTRY[0] % 6]
+    st2, got2 = mon.call(entry)
+    R.count(f'neg-entry:{ename}')
+    if st2 == 'ok':
+        R.violation(f'accepted-{key}-via-{ename.split("(")[0]}{"-cls" if "(" in ename and not ename.endswith("()") else ""}', f'{what} was accepted through {ename}: returned {mon.srepr(got2, 80)}',
+                    dict(W, corrupted=data if len(data) < 2000 else None, entry=ename))
+        return False
     return True
 
 
